@@ -33,19 +33,21 @@ func minimise(c Case, sig string, extra customfuncs.CustomFuncs, deadline time.D
 	} else {
 		return c, probes
 	}
+	// pre-order: a parent is tried before its members, so whole subtrees go first
 	for changed := true; changed && probes < budget; {
 		changed = false
-		n := len(allSlots(&tree))
-		for i := n - 1; i >= 0 && probes < budget; i-- {
+		for i := 0; probes < budget; {
 			cand := clone(tree)
 			ss := allSlots(&cand)
 			if i >= len(ss) {
-				continue
+				break
 			}
 			ss[i].del()
 			if test(mkCase(render(cand), in)) {
 				tree = cand
 				changed = true
+			} else {
+				i++
 			}
 		}
 	}
